@@ -13,7 +13,7 @@ PROP = dict(
                 'bound), (2) the encoder\'s return value, which must also equal '
                 'the extent of the bytes really modified (two complementary '
                 'destination fills), (3) the other sources reporting the same '
-                'quantity (encoder meta == header reader == decoder-side meta '
+                'quantity (encoder meta == header reader '
                 'for FOR/PFOR width, PFOR exception count and marker, RLE run '
                 'count, adaptive type) with plausibility bounds from the input, '
                 'and (4) decoding: capacity n must yield the reported count, '
@@ -28,7 +28,7 @@ PROP = dict(
                 'is the encoder\'s own choice (FOR/PFOR width, which values '
                 'PFOR patches, how RLE splits runs) is only checked for '
                 'agreement between its sources and for plausibility: a defect '
-                'that makes encoder meta, header reader and decoder agree on a '
+                'that makes encoder meta and header reader agree on a '
                 'wrong-but-plausible number is out of reach (it would be a '
                 'lossless-ness defect, C02/C06). Not compared by design: '
                 'varintRLEMeta.uniqueValues, varintBP128GetCount on formats '
@@ -76,8 +76,9 @@ PROP = dict(
         'PFOR: which width the encoder chooses and which values it patches is '
         'its own business (percentile range, marker-collision handling), and '
         'so is the stored layout: width, marker and exception count are '
-        'checked for agreement between the encoder\'s meta, varintPFORReadMeta '
-        'and the decoder-side meta, and against the input (1 <= width <= 8, '
+        'checked for agreement between the encoder\'s meta and '
+        'varintPFORReadMeta (what a decoder leaves in the caller\'s '
+        'varintPFORMeta is undocumented and not looked at), and against the input (1 <= width <= 8, '
         'marker = all-ones of width bytes, values whose offset does not fit '
         'width bytes <= exceptionCount <= count); an encoder returning 0 for '
         'an in-domain array is reported as a violation (no allocation failures '
